@@ -354,7 +354,7 @@ Proof.
   unfold ev_ok. destruct t, st; auto. intros [H1 H2]. split; auto.
 Qed.
 
-Lemma InvB_env calls s a s' : InvB calls s -> step_env calls s a = Some s' -> InvB calls s'.
+Lemma InvB_env calls s a s' : InvB calls s -> step_env fixed calls s a = Some s' -> InvB calls s'.
 Proof.
   intros HI H. unfold step_env in H. brkB H; tfB calls; try (invB_solve calls; fail).
   - (* EStart: a new entry and a new caller thread parked at rpc.call.registered *)
